@@ -188,3 +188,26 @@ func (*Engine).Process
   before getPartition the-partition-is-looked-up-under-the-rows-own-key: $arg1 == partitionKey
   before step the-row-is-stepped-in-its-own-partition-under-that-partitions-own-next-number: $arg1 == $part && $arg2 == row && $arg4 == $arg1.seq && $arg3 == $ts
 @*/
+
+/*@
+// ---------------------------------------------------------------- C15: aggregates inside DEFINE / MEASURES
+// over the numeric values collected from the matching rows: COUNT counts, SUM and AVG add them all up, MIN and MAX are one of
+// the values and bound all of them (whatever their sign), and MIN / MAX / AVG of no value is NULL
+recfunc csum((a (Array Int Real)) (n Int)) Real := (ite (<= n 0) 0.0 (+ (@csum a (- n 1)) (select a (- n 1))))
+
+func aggregate
+  props C15
+  option assumed_frame
+  atreturn count: name == "COUNT" ==> result == ite(star, boxof(float64(cntRows), float64), boxof(float64(cntNonNull), float64))
+  atreturn sum-adds-every-value: name == "SUM" ==> result == boxof(csum(arr(vals), len(vals)), float64)
+  atreturn avg-is-the-sum-over-the-number-of-values: name == "AVG" ==> result == ite(len(vals) == 0, nil, boxof(csum(arr(vals), len(vals)) / float64(len(vals)), float64))
+  atreturn min-is-a-value-no-other-value-is-below: name == "MIN" && len(vals) > 0 ==> hasType(result, float64) && forall(j, 0, len(vals), realval(result) <= vals[j]) && exists(j, 0, len(vals), realval(result) == vals[j])
+  atreturn max-is-a-value-no-other-value-is-above: name == "MAX" && len(vals) > 0 ==> hasType(result, float64) && forall(j, 0, len(vals), realval(result) >= vals[j]) && exists(j, 0, len(vals), realval(result) == vals[j])
+  atreturn min-and-max-of-nothing-are-null: (name == "MIN" || name == "MAX") && len(vals) == 0 ==> result == nil
+  loop 1 invariant cntRows >= 0 && cntNonNull >= 0
+  loop 2 invariant s == csum(arr(vals), $i)
+  loop 3 invariant s == csum(arr(vals), $i)
+  loop 4 invariant forall(j, 0, $i + 1, m <= vals[j]) && exists(j, 0, $i + 1, m == vals[j]) && len(vals) > 0
+  loop 5 invariant forall(j, 0, $i + 1, m >= vals[j]) && exists(j, 0, $i + 1, m == vals[j]) && len(vals) > 0
+@*/
+
